@@ -154,6 +154,9 @@ typename std::enable_if<S != 'c', bool>::type runMutAlias(const Req& r, Resp& R)
 template <class G, char S>
 typename std::enable_if<S == 'c', bool>::type runMutAlias(const Req&, Resp&) { return false; }
 
+// group-specific constructors / accessors: specialised in the per-group translation units
+template <class G> struct Extra { static bool run(const Req&, Resp&) { return false; } };
+
 // algorithms/{interpolation,average,decasteljau}.h
 template <class G>
 bool runAlgo(const Req& r, Resp& R) {
@@ -226,6 +229,7 @@ void runS(const Req& r, Resp& R) {
   R.handled = true;
   if (runAlias<G, S>(r, R) || runMutAlias<G, S>(r, R)) return;
   if (S == 'o' && runAlgo<G>(r, R)) return;
+  if (S == 'o' && Extra<G>::run(r, R)) return;
   if (op == "exp" && need(DoF)) {
     TOperand<T, S> t(a.data()); J j;
     G g = w0 ? t.get().exp(j) : t.get().exp();
